@@ -435,11 +435,16 @@ func judge(o outcome) verdict {
 	switch b.Hang {
 	case "run":
 		return verdict{"hang", true, fmt.Sprintf("Run did not return within %v (normal: well under 1 s) and then neither issued a task RPC nor reached the user function for %v", hangAfter, hangSilence)}
+	case "repeat-run":
+		return verdict{"hang-in-later-run", true, fmt.Sprintf("running the failing Func again in the same session (run %d) did not return within %v and showed no activity for %v", b.Repeats+2, hangAfter, hangSilence)}
 	case "later-run":
-		return verdict{"hang-in-later-run", true, fmt.Sprintf("a healthy Func run afterwards in the same session did not return within %v and showed no activity for %v", hangAfter, hangSilence)}
+		return verdict{"hang-in-later-run", true, fmt.Sprintf("a healthy Func run afterwards in the same session did not return within %v and showed no activity for %v (after %d runs of the failing Func; the healthy Func's tasks are Exclusive, i.e. need all procs)", hangAfter, hangSilence, b.Repeats+1)}
 	}
 	if b.ErrNil && !b.RowsOK {
 		return verdict{"wrong-rows", true, "Run returned nil but the rows are not the program's rows: " + b.RowsDiff}
+	}
+	if b.RepeatBad != "" {
+		return verdict{"wrong-outcome-in-later-run", true, b.RepeatBad}
 	}
 	if !b.HealthyOK {
 		return verdict{"session-unusable", true, "a healthy Func run afterwards in the same session failed: " + b.HealthyErr}
